@@ -203,6 +203,68 @@ def h_registry(sx):
     return {"history": hist, "bound": len(obs)}
 
 
+def h_type_history(sx):
+    """A custom type registered again under the same name (register_type(T=conv2) after register_type(T=conv1)): every
+    definition converts with the converter that was declared for T when the definition was made."""
+    from behave.step_registry import StepRegistry
+    from behave.matchers import use_step_matcher, register_type, get_step_matcher_factory
+    from behave.runner import Context, ModelRunner
+    from behave.model import Step
+    from vlib.world import base_config
+    import parse
+    factory = get_step_matcher_factory()
+    factory.reset()
+    try:
+        kind = sx.choice("matcher", ["parse", "cfparse"])
+        kind = kind if isinstance(kind, str) else kind.concretize()
+        again = bool(sx.bool("type_registered_again"))
+        same_pattern = bool(sx.bool("second_definition_same_pattern"))
+        st2 = sx.choice("second_step_type", ["when", "step", "given"])
+        st2 = st2 if isinstance(st2, str) else st2.concretize()
+        fresh_registry = bool(sx.bool("second_definition_in_fresh_registry"))
+
+        @parse.with_pattern(r"\d+")
+        def euros(text):
+            return ("EUR", int(text))
+
+        @parse.with_pattern(r"\d+")
+        def cents(text):
+            return ("CENT", int(text))
+        use_step_matcher(kind)
+        register_type(Amount=euros)
+        got = {}
+        reg = StepRegistry()
+        reg.add_step_definition("given", u"an amount of {v:Amount}", lambda context, v: got.__setitem__("first", v))
+        if again:
+            register_type(Amount=cents)
+        reg2 = StepRegistry() if fresh_registry else reg
+        pat2 = u"an amount of {v:Amount}" if same_pattern else u"a sum of {v:Amount}"
+        if st2 == "given" and same_pattern and not fresh_registry:
+            st2 = "when"        # (the identical definition twice for one step type is an ambiguity, not this check's subject)
+        reg2.add_step_definition(st2, pat2, lambda context, v: got.__setitem__("second", v))
+        runner = ModelRunner(base_config(("--no-summary",)))
+        ctx = Context(runner)
+        runner.context = ctx
+        kw2 = {"when": "When", "given": "Given", "step": "Then"}[st2]
+        for which, r, kw, stype, text in (("first", reg, "Given", "given", u"an amount of 5"),
+                                          ("second", reg2, kw2, "then" if st2 == "step" else st2, pat2.replace(u"{v:Amount}", u"7"))):
+            m = r.find_match(Step("x.feature", 1, kw, stype, text))
+            det = {"matcher": kind, "type_registered_again": again, "second_pattern": pat2, "second_step_type": st2,
+                   "fresh_registry": fresh_registry, "definition": which}
+            if m is None:
+                sx.check(False, "C11.converted-by-the-type-declared-at-definition", detail=dict(det, error="no match for %r" % text))
+                continue
+            with ctx.use_with_user_mode():
+                m.run(ctx)
+            n_ = 5 if which == "first" else 7
+            want = ("CENT", n_) if (which == "second" and again) else ("EUR", n_)
+            sx.check(got.get(which) == want, "C11.converted-by-the-type-declared-at-definition",
+                     detail=dict(det, received=repr(got.get(which)), expected=repr(want)))
+        return {"kind": kind, "got": {k: list(v) for k, v in got.items()}}
+    finally:
+        factory.reset()
+
+
 def h_module_reset(sx):
     """load_step_modules: a matcher switch inside one step module does not leak into the next one."""
     import os
@@ -271,6 +333,8 @@ def jobs(tier, seed):
                       reach=["C11.bound-to-first-matching-definition(type-before-generic,earlier-first)",
                              "C11.ambiguity-raised-exactly-when-existing-definition-matches", "C11.identical-re-registration-ignored"],
                       min_paths=50, cost=5000, validate=2 if tier == "quick" else 10, closure=False, max_paths=600000, budget_s=1500))
+    js.append(Job("type-history", "props.c11:h_type_history", {}, reach=["C11.converted-by-the-type-declared-at-definition"], min_paths=20, cost=5,
+                  validate=40, closure=False))
     js.append(Job("module-reset", "props.c11:h_module_reset", {}, reach=["C11.matcher-switch-does-not-leak-into-next-step-module"], min_paths=3, cost=5,
                   validate="all", closure=False))
     return js
